@@ -20,6 +20,7 @@ RULE = (
     "q-value columns of assign_confidence outputs per algorithm. Non-trivial = unsorted input with >=50 targets "
     "and >=50 decoys; distinct = (algorithm, seed, index, rep)."
     " files class, every second case: the same analysis written to an SQLite result database (sqlite_path): stored PEP / q-value / score of every PSM and peptide equal the text files', PEPs in [0,1] and score-monotone."
+    " Score form bigint: int64 fixed-point scores 1e9 + milli-units; permutation equivariance of the interpolating q-value estimators is demanded whenever the scores are actually tie-free."
 )
 ASSUMPTIONS = [
     "degenerate inputs (no decoys, constant scores, <50 of either label) are outside the statement",
@@ -43,8 +44,12 @@ def gen_mixture(rng, big=False):
     dec = rng.normal(0, 1, nd)
     s = np.r_[tgt, dec]
     t = np.r_[np.ones(nt, bool), np.zeros(nd, bool)]
-    form = str(rng.choice(["cont", "grid", "scaled", "shifted"]))
-    if form == "grid":
+    form = str(rng.choice(["cont", "grid", "scaled", "shifted", "bigint"]))
+    if form == "bigint":
+        # integer-typed scores of large magnitude (fixed-point scores with an offset): exact in int64 and float64,
+        # neighbours coincide in float32
+        s = (10**9 + np.round(s * 1000)).astype(np.int64)
+    elif form == "grid":
         s = np.round(s * 8) / 8
     elif form == "scaled":
         s = s * 37.5
@@ -162,7 +167,7 @@ def _run_alg(case, fn, algname, lo, hi, name):
         # For the interpolating q-value estimators the value of a tied score legitimately depends on
         # which tied PSM comes last; equivariance is therefore demanded on tie-free input only
         # (see DESIGN 11); tie equality and monotonicity are still checked on tied input.
-        if not fl and not (name == "q" and meta["form"] == "grid"):
+        if not fl and not (name == "q" and len(np.unique(s)) < len(s)):
             # alignment: f(s[p], t[p]) == f(s, t)[p]
             p = rng.permutation(len(s))
             # (for the buffer-reusing callers: the very same array objects, refilled in the permuted order)
